@@ -453,7 +453,39 @@ func c05Flatten(c *Check, ic *importClosure) {
 			}
 		})
 		if len(recCalls) == 0 {
-			c.Undecidedf("FLATTEN-ORDER", key+"|recursion", p.pos(u.Pos()), "flatten is not recursive any more: rule needs re-reading")
+			// An iterative flatten keeps a work list. Taking work from the front
+			// (w = w[1:]) while new imports are appended at the back is a queue:
+			// the files come out breadth-first, not in the depth-first order in
+			// which an import stands for the text of the imported file.
+			var fifo ssa.Instruction
+			eachInstr(u, func(_ *ssa.BasicBlock, i ssa.Instruction) {
+				sl, ok := i.(*ssa.Slice)
+				if !ok || sl.High != nil || sl.Low == nil {
+					return
+				}
+				if k, isK := constInt(sl.Low); !isK || k != 1 {
+					return
+				}
+				// the sliced list is also appended to in the same function
+				grown := false
+				eachInstr(u, func(_ *ssa.BasicBlock, j ssa.Instruction) {
+					if call, ok := j.(*ssa.Call); ok {
+						if b, ok := call.Call.Value.(*ssa.Builtin); ok && b.Name() == "append" && types.Identical(call.Type(), sl.Type()) {
+							if _, isStr := sl.Type().Underlying().(*types.Slice); isStr {
+								grown = true
+							}
+						}
+					}
+				})
+				if grown {
+					fifo = i
+				}
+			})
+			if fifo != nil {
+				c.Flagf("FLATTEN-ORDER", key+"|depth-first order", p.pos(fifo.Pos()), "the flatten keeps a first-in-first-out work list (front removed here, imports appended at the back): files are ordered breadth-first, so declarations of a nested import come after those of a later sibling import")
+			} else {
+				c.Undecidedf("FLATTEN-ORDER", key+"|recursion", p.pos(u.Pos()), "flatten is neither recursive nor a recognisable work-list loop: the ordering rule cannot be evaluated")
+			}
 			continue
 		}
 		// appends to the output list (store of append result through a pointer parameter)
